@@ -37,8 +37,14 @@ enum {
 
 static size_t s_advance_and_clamp_index(size_t current_index, int amount, size_t maximum) {
     size_t next_index = current_index + amount;
-    if (next_index > maximum) {
-        next_index = maximum;
+
+    /*
+     * Each segment is written with (v)snprintf into the (maximum - current_index) bytes that remain. When it does not
+     * fit, the last of those bytes holds the terminator, not content: continue on top of that terminator so that a
+     * truncated line does not end with NUL bytes instead of the newline.
+     */
+    if (next_index >= maximum) {
+        next_index = maximum > 0 ? maximum - 1 : 0;
     }
 
     return next_index;
@@ -61,7 +67,8 @@ int aws_format_standard_log_line(struct aws_logging_standard_formatting_data *fo
         return AWS_OP_ERR;
     }
 
-    if (formatting_data->total_length == 0) {
+    /* there must be room for at least the newline and the terminator */
+    if (formatting_data->total_length < 2) {
         return aws_raise_error(AWS_ERROR_INVALID_ARGUMENT);
     }
 
